@@ -327,7 +327,7 @@ def relLoop (W : World) (v : Variant) (first : Nat) : Nat → List Nat → VStat
     match W.log[j]? with
     | none => .error .other
     | some e =>
-      if e.kind == .prop && (v.f2_propagationSkipped || e.ref.startsWith gittufPrefix) then
+      if e.kind == .prop && (v.f2_propagationSkipped || hasPrefix e.ref gittufPrefix) then
         relLoop W v first fuel rest st
       else if e.ref == policyStagingRef then relLoop W v first fuel rest st
       else if e.ref == policyRef then
@@ -461,7 +461,7 @@ def verifyMergeableCommit (W : World) (v : Variant) (targetRef : String) (featur
 
 /-- `VerifyMergeable(targetRef, featureRef)`: the feature tip is the latest unskipped entry for featureRef -/
 def verifyMergeable (W : World) (v : Variant) (targetRef featureRef : String) : Except VE Bool :=
-  if targetRef.startsWith "refs/tags/" then .error .other else
+  if hasPrefix targetRef "refs/tags/" then .error .other else
   match W.latestFor featureRef W.log.length (unskipped := true) with
   | none => .error .notFound
   | some j =>
